@@ -342,6 +342,7 @@ def load_realign(repo):
         return f
 
     mod.open = tracking_open
+    _MOD_INFO["mutable_globals"] = _mutable_globals()
     _MOD = mod
     return mod
 
@@ -398,6 +399,15 @@ def _abstract_state(w, act, op):
 
 def _on_step(kernel, act, op):
     w = simmp.WORLD
+    if w.mutable_globals:
+        # who ran since the last scheduling step?  a worker that changed module-level state has done
+        # something a forked process could not do to its parent or siblings
+        fp = _globals_fingerprint(w.mutable_globals)
+        if fp != w.globals_fp:
+            if w.last_actor_role == "W" and w.shared_state_violation is None:
+                w.shared_state_violation = "worker-mutated-module-level-state"
+            w.globals_fp = fp
+        w.last_actor_role = act.target.role if op is not None else None
     if op is not None and act.target.role == "P":
         st = _abstract_state(w, act, op)
         w.abs_states.add(st)
@@ -445,6 +455,33 @@ def make_policy(cfg, rng):
     raise ValueError(pol["name"])
 
 
+def _mutable_globals():
+    """module-level data of the gaftools modules that a process could mutate (lists, dicts, sets, ...):
+    forked processes each have their own copy, the simulated ones share it"""
+    import collections
+
+    out = []
+    for mname, m in list(sys.modules.items()):
+        if not (mname == "gaftools" or mname.startswith("gaftools.")) or m is None:
+            continue
+        for name, val in list(vars(m).items()):
+            if name.startswith("__"):
+                continue
+            if isinstance(val, (list, dict, set, bytearray, collections.deque)):
+                out.append((m, name))
+    return out
+
+
+def _globals_fingerprint(items):
+    parts = []
+    for m, name in items:
+        try:
+            parts.append(pickle.dumps(getattr(m, name, None), protocol=4))
+        except Exception:
+            parts.append(repr(type(getattr(m, name, None))).encode())
+    return hashlib.sha256(b"|".join(parts)).digest()
+
+
 class RunResult:
     __slots__ = (
         "outcome", "hang", "out", "probes", "fault_log", "trace", "decisions", "digest", "sig", "steps",
@@ -489,6 +526,10 @@ def run_sim(repo, paths, cfg, decisions=None, keep_trace=True):
     world.mp_module = _MOD_INFO.get("fake_mp")
     world.pickle_at_put = bool(cfg.get("pickle_at_put", False))
     world._alive_at_empty = 0
+    world.mutable_globals = _MOD_INFO.get("mutable_globals") or []
+    world.globals_fp = _globals_fingerprint(world.mutable_globals) if world.mutable_globals else None
+    world.last_actor_role = None
+    world.shared_state_violation = None
     world.abs_states = set()
     world.abs_trans = set()
     world.abs_prev = None
@@ -580,6 +621,8 @@ def run_sim(repo, paths, cfg, decisions=None, keep_trace=True):
         for t in kernel.trace:
             pass
     r.harness_error = repr(kernel.harness_error) if kernel.harness_error else None
+    if world.shared_state_violation and r.unsupported is None:
+        r.unsupported = world.shared_state_violation
     if kernel.harness_error is not None and isinstance(kernel.harness_error, SimUnsupported):
         r.unsupported = str(kernel.harness_error)
         r.harness_error = None
